@@ -695,6 +695,9 @@ func runC12(f *common.Flags, res *common.Result, m *mdl) {
 				if seenPlan[pl.String()] {
 					continue
 				}
+				if !sc.Undamaged && f.Tier != "thorough" && (pl.Kind == "stopbefore" || (pl.Kind == "short" && pl.J > 1)) {
+					continue // pre-damaged outputs (checksum oracles only): a thinner set of plans in the quick tier
+				}
 				seenPlan[pl.String()] = true
 				// the model is expensive on the 100000-byte content: compare it on a subset there
 				cmp := !big || f.Tier == "thorough" || pl.Kind == "stopafter" || (pl.Kind == "fail" && k%2 == 0) || (pl.Kind == "torn" && pl.J > 1)
